@@ -834,17 +834,29 @@ static void idx_case(uint64_t idx, void *vctx)
         free(src);
     } else {
         for (int i = 0; i < N; i++) desc[i] = vals[i];
-        for (int k = 0; k < 4 && !vf_failed(); k++) {
+        /* k & 4: the destination carries the OTHER palette of the same format: the copy has to go through colour
+         * (index -> source palette colour -> 15-bit key (5:5:5, or luma (153 r + 301 g + 58 b) >> 2) -> destination table) */
+        const pixman_indexed_t *opal = &c->pal[dg[5]][pv ^ 1];
+        for (int k = 0; k < 8 && !vf_failed(); k++) {
             timg s, d; int dxo = (k & 2) ? (xo + 1) % c->nxo : xo;
+            const pixman_indexed_t *dpal = (k & 4) ? opal : pal;
             ti_alloc(&s, bpp, xo + N + 2, 2, (k & 1) ? 0 : 0xff, acc);
             for (int i = 0; i < N; i++) c10_set_px(ti_row(&s, 1), bpp, xo + i, vals[i], pmask);
             ti_alloc(&d, bpp, dxo + N + 3, 2, (k & 1) ? 0xff : 0, acc);
             uint8_t *exp = malloc(d.size); memcpy(exp, d.alloc, d.size);
-            for (int j = 0; j < N; j++) c10_set_px(exp + GUARD + d.stride, bpp, dxo + j, vals[src_index(mode, N, j)], pmask);
-            ti_create(&s, F->code, pal); ti_create(&d, F->code, pal);
+            for (int j = 0; j < N; j++) {
+                uint32_t v = vals[src_index(mode, N, j)];
+                if (k & 4) {
+                    uint32_t a = pal->rgba[v], r = (a >> 16) & 255, gg = (a >> 8) & 255, b = a & 255;
+                    uint32_t key = color ? ((r >> 3) << 10 | (gg >> 3) << 5 | (b >> 3)) : ((r * 153 + gg * 301 + b * 58) >> 2);
+                    v = dpal->ent[key] & pmask;
+                }
+                c10_set_px(exp + GUARD + d.stride, bpp, dxo + j, v, pmask);
+            }
+            ti_create(&s, F->code, pal); ti_create(&d, F->code, dpal);
             run_src_composite(&s, &d, mode, xo, dxo, N);
             ti_release(&s); ti_release(&d);
-            check_stored(&d, exp, NULL, dxo, N, F, "self", what, desc, mode);
+            check_stored(&d, exp, NULL, dxo, N, F, (k & 4) ? "self-other-palette" : "self", what, desc, mode);
             outcome = vf_mix(outcome, vf_hash64(ti_row(&d, 1), (size_t)d.stride, 23));
             free(exp); ti_free(&s); ti_free(&d);
         }
